@@ -7,7 +7,7 @@ export CARGO_NET_OFFLINE=true
 python3 tools/mk.py all > out_setup_coq.log 2>&1 || { mkdir -p out; mv out_setup_coq.log out/; tail -50 out/out_setup_coq.log; exit 1; }
 mkdir -p out; mv out_setup_coq.log out/
 cd harness
-RUSTFLAGS="--cfg rustaudio_dasp_verif" CARGO_TARGET_DIR=/verif/harness/target cargo build --offline --quiet --bins 2>&1 | grep -v "^warning\|^ *|\|^ *=\|^ *-->\|^$\|^help\|^ *[0-9]* |" | tail -20 || true
-RUSTFLAGS="--cfg rustaudio_dasp_verif" CARGO_TARGET_DIR=/verif/harness/target cargo build --offline --quiet --bins --release 2>&1 | grep -v "^warning\|^ *|\|^ *=\|^ *-->\|^$\|^help\|^ *[0-9]* |" | tail -20 || true
+RUSTFLAGS="--cfg rustaudio_dasp_verif" CARGO_TARGET_DIR="$PWD/target" cargo build --offline --quiet --bins 2>&1 | grep -v "^warning\|^ *|\|^ *=\|^ *-->\|^$\|^help\|^ *[0-9]* |" | tail -20 || true
+RUSTFLAGS="--cfg rustaudio_dasp_verif" CARGO_TARGET_DIR="$PWD/target" cargo build --offline --quiet --bins --release 2>&1 | grep -v "^warning\|^ *|\|^ *=\|^ *-->\|^$\|^help\|^ *[0-9]* |" | tail -20 || true
 test -x target/debug/c06
 echo "setup ok"
